@@ -226,16 +226,51 @@ theorem mem_filter_not {α : Type} (p : α → Bool) (l : List α) (x : α) (hx 
 
 open Tcell.Gen.LockFacts in
 /-- **discipline_partial.**  Every extracted fact outside the flagged list respects the lockset discipline: it is
-    an init-phase access, or the mutex is held, or the field is exempt (synchronisation primitive, never written in
-    the concurrent phase, or confined to one internal goroutine).  (The full `discipline` — flagged = [] — is false
-    on the pinned tree, see `flagged_exact`; it becomes true for the entry points repaired by
-    fixes/C10-lock-beep-candisplay-setsize.patch.) -/
+    an init-phase access, or the mutex is held, or the field is exempt (synchronisation primitive, never written in the
+    concurrent phase, or confined to one internal goroutine).
+    WHY STILL PARTIAL on the current tree: the full `discipline` — `flagged = []` — is still false.  After /repo da67ed6
+    (Beep, CanDisplay, SetSize) and 5249fc9 (simscreen methods) the regenerated `flagged` list consists exactly of the
+    accesses made by the tail of `disengage` when entered from `tscreen/Fini` and `tscreen/Suspend` (`flagged_only_disengage`:
+    `wg.state`, `cells`, `buffering`, `buf`, `tty.out`, `cursorShaped`, `cursorTinted` after the lock was released for
+    `wg.Wait`): the open findings `C10-disengage-tail` / `C10-loops-overlap`, reproduced by engine `race` under the race
+    detector on every run (keeping the lock across `wg.Wait` deadlocks with the loops' exit path, so the repair is a
+    restructuring of shutdown — not delivered).  What IS full strength now: `discipline_except_disengage` below. -/
 theorem discipline_partial : ∀ x ∈ facts, x ∈ flagged ∨
     factOk (exemptFields facts entryKind syncFields nFields) x = true := by
   intro x hx
   have := mem_filter_not (factOk (exemptFields facts entryKind syncFields nFields)) facts x hx
   rw [← flagged_exact]
   exact this
+
+open Tcell.Gen.LockFacts in
+/-- the two entry points whose `disengage` tail is the open finding -/
+def disengageEntries : List Nat := [entryNames.idxOf "tscreen/Fini", entryNames.idxOf "tscreen/Suspend"]
+
+open Tcell.Gen.LockFacts in
+/-- on the current tree every flagged fact belongs to `tscreen/Fini` or `tscreen/Suspend`, is a concurrent-phase access
+    without the lock, and both names are real entry points (kernel evaluation over the regenerated facts) -/
+theorem flagged_only_disengage :
+    flagged.all (fun x => disengageEntries.contains x.entry && x.conc && !x.held) = true ∧
+    disengageEntries.all (fun e => decide (e < entryNames.length)) = true := by decide +kernel
+
+open Tcell.Gen.LockFacts in
+/-- **discipline_except_disengage** (full strength for every other entry point, current tree): every extracted fact of
+    EVERY entry point of tScreen and simscreen other than `tscreen/Fini` and `tscreen/Suspend` — Beep, SetSize, CanDisplay
+    and the simscreen methods that were flagged on the pinned tree included — respects the lockset discipline. -/
+theorem discipline_except_disengage : ∀ x ∈ facts, x.entry ∉ disengageEntries →
+    factOk (exemptFields facts entryKind syncFields nFields) x = true := by
+  intro x hx hne
+  rcases discipline_partial x hx with hf | hok
+  · exfalso
+    have := List.all_eq_true.1 flagged_only_disengage.1 x hf
+    simp only [Bool.and_eq_true, List.contains_iff_mem] at this
+    exact hne (by simpa using this.1.1)
+  · exact hok
+
+open Tcell.Gen.LockFacts in
+/-- non-vacuity: facts of the formerly flagged entry points exist and are covered (Beep writes `buf` holding the lock) -/
+example : ∃ x ∈ facts, x.entry = entryNames.idxOf "tscreen/Beep" ∧ x.entry ∉ disengageEntries ∧ x.wr = true ∧ x.held = true := by
+  decide +kernel
 
 open Tcell.Gen.LockFacts in
 /-- fields of class "must be guarded" that no flagged fact mentions: on these `clean_field_race_free` applies -/
